@@ -38,6 +38,19 @@ import graphtage  # noqa: E402
 from ..seams import run_command as command  # noqa: E402  (the command, in-process: runpy + sys.exit semantics)
 
 
+_UNCAUGHT = "<<gsim: uncaught exception left graphtage>>"
+# `python -m graphtage <args>` with one addition: an exception that escapes is marked before Python prints it (a
+# traceback that graphtage itself logs, e.g. with exc_info, is not an uncaught exception)
+_LAUNCHER = ("import runpy, sys\n"
+             "sys.argv = sys.argv[1:]\n"
+             "try:\n"
+             "    runpy.run_module('graphtage', run_name='__main__', alter_sys=True)\n"
+             "except SystemExit:\n"
+             "    raise\n"
+             "except BaseException:\n"
+             "    sys.stderr.write('\\n" + _UNCAUGHT + "\\n')\n"
+             "    raise\n")
+
 FORMATS = ["json", "json5", "yaml", "xml", "html", "plist"]
 EXT = {"json": ".json", "json5": ".json5", "yaml": ".yaml", "xml": ".xml", "html": ".html", "plist": ".plist"}
 MIME = {"json": "application/json", "json5": "application/json5", "yaml": "application/x-yaml",
@@ -66,14 +79,16 @@ def _rejects_json5(data: bytes) -> bool:
 
 
 def _rejects_yaml(data: bytes) -> bool:
-    """Rejected only if the pure-Python *and* the C safe loader reject it (so a loader-specific leniency cannot make
-    the check demand an error that graphtage's loader legitimately does not see)."""
+    """Rejected only if the pure-Python *and* the C safe loader cannot even PARSE it (scanner / parser / reader
+    errors).  Errors of later stages - an unknown application tag, an unhashable mapping key, an undefined alias -
+    are not syntax errors: a loader that accepts such documents is not accepting malformed input."""
     verdicts = []
     for loader in (yaml.SafeLoader, getattr(yaml, "CSafeLoader", yaml.SafeLoader)):
         try:
-            list(yaml.load_all(data, Loader=loader))
+            for _ in yaml.parse(data, Loader=loader):
+                pass
             verdicts.append(False)
-        except yaml.YAMLError:
+        except (yaml.scanner.ScannerError, yaml.parser.ParserError, yaml.reader.ReaderError):
             verdicts.append(True)
         except Exception:
             verdicts.append(False)   # not a syntax verdict: do not keep
@@ -548,11 +563,11 @@ class C20:
                 fh.write(bad)
             argv = self._argv(fmt, f, bp, ok)
             env = dict(os.environ, PYTHONPATH=core.REPO, PYTHONHASHSEED="0")
-            p = subprocess.run([sys.executable, "-m", "graphtage"] + argv[1:], capture_output=True, env=env,
-                               timeout=110, cwd=d)
+            p = subprocess.run([sys.executable, "-c", _LAUNCHER] + argv, capture_output=True, env=env,
+                               timeout=300, cwd=d)
             err = p.stderr.decode("utf-8", "replace")
-            if "Traceback (most recent call last)" in err:
-                return ("uncaught-exception", "fresh-process", err[-800:])
+            if _UNCAUGHT in err:
+                return ("uncaught-exception", "fresh-process", err.replace(_UNCAUGHT, "")[-800:])
             fresh = self._judge(p.returncode, None, p.stdout.decode("utf-8", "replace"), err, name, bp, ok)
             if fresh is not None:
                 return (fresh[0], fresh[1] + "(fresh-process)", fresh[2])
